@@ -67,11 +67,65 @@ def _not_in_list(fn, subject: str, enum: str) -> list[str]:
     if len(rets) != 1:
         raise ExtractError(f"{fn.name}: expected exactly one return")
     v = rets[0].value
+    if isinstance(v, ast.UnaryOp) and isinstance(v.op, ast.Not) and isinstance(v.operand, ast.Compare) \
+            and len(v.operand.ops) == 1 and isinstance(v.operand.ops[0], ast.In):
+        # `not x in [...]` is the same decision as `x not in [...]`
+        v = ast.Compare(left=v.operand.left, ops=[ast.NotIn()], comparators=v.operand.comparators)
     if not (isinstance(v, ast.Compare) and len(v.ops) == 1 and isinstance(v.ops[0], ast.NotIn)
             and isinstance(v.left, ast.Name) and v.left.id == subject
             and isinstance(v.comparators[0], (ast.List, ast.Tuple))):
         raise ExtractError(f"{fn.name}: not of the form `{subject} not in [...]`: {ast.dump(v)}")
     return [_attr_member(e, enum) for e in v.comparators[0].elts]
+
+
+def _early_return_form(body: list) -> list:
+    """`if A: r = X / elif B: r = Y / else: r = Z ; return r` (a result variable, optionally declared by a bare
+    annotation `r: T` or initialised by `r = Z` instead of the `else`) rewritten as the equivalent
+    `if A: return X / if B: return Y / return Z`.  Any other body is returned unchanged."""
+    stmts = [s for s in body if not (isinstance(s, ast.AnnAssign) and s.value is None)
+             and not (isinstance(s, ast.Expr) and isinstance(s.value, ast.Constant))]
+    if not (len(stmts) >= 2 and isinstance(stmts[-1], ast.Return) and isinstance(stmts[-1].value, ast.Name)):
+        return body
+    var = stmts[-1].value.id
+
+    def assigned(block):
+        """the expression of a block that consists of `var = <expr>` only"""
+        if len(block) == 1 and isinstance(block[0], ast.Assign) and len(block[0].targets) == 1 \
+                and isinstance(block[0].targets[0], ast.Name) and block[0].targets[0].id == var:
+            return block[0].value
+        if len(block) == 1 and isinstance(block[0], ast.AnnAssign) and isinstance(block[0].target, ast.Name) \
+                and block[0].target.id == var and block[0].value is not None:
+            return block[0].value
+        return None
+
+    default = None
+    rest = stmts[:-1]
+    if len(rest) == 2:                       # r = Z ; if … elif … (no else)
+        default = assigned(rest[:1])
+        rest = rest[1:]
+        if default is None:
+            return body
+    if not (len(rest) == 1 and isinstance(rest[0], ast.If)):
+        return body
+    out, node = [], rest[0]
+    while True:
+        val = assigned(node.body)
+        if val is None:
+            return body
+        out.append(ast.If(test=node.test, body=[ast.Return(value=val)], orelse=[]))
+        if len(node.orelse) == 1 and isinstance(node.orelse[0], ast.If):
+            node = node.orelse[0]
+            continue
+        if node.orelse:
+            if default is not None:
+                return body
+            default = assigned(node.orelse)
+            if default is None:
+                return body
+        break
+    if default is None:
+        return body
+    return out + [ast.Return(value=default)]
 
 
 def extract(src) -> dict:
@@ -108,7 +162,11 @@ def extract(src) -> dict:
     facts["ts_members"] = _members(tst)
     facts["ts_falsy"] = _not_in_list(_func(tst, "__bool__"), "self", "TestStatus")
     suite = _class(ts, "TestSuite")
-    facts["testsuite_falsy"] = _not_in_list(_func(_func(suite, "__bool__"), "_is_true"), "result", "TestStatus")
+    # the nested helper of TestSuite.__bool__ is located by structure (its name / parameter name are local choices)
+    nested = [n for n in _func(suite, "__bool__").body if isinstance(n, ast.FunctionDef)]
+    if len(nested) != 1 or len(nested[0].args.args) != 1:
+        raise ExtractError("TestSuite.__bool__: expected exactly one nested one-parameter helper")
+    facts["testsuite_falsy"] = _not_in_list(nested[0], nested[0].args.args[0].arg, "TestStatus")
     stf = _func(suite, "status")
     derived = None
     for n in ast.walk(stf):
@@ -132,7 +190,9 @@ def extract(src) -> dict:
     rules = []
     default_none = False
     pair_names = set()      # `results = (r1, r2)` / `[r1, r2]` bound to a local name before the rules
-    for stmt in mr.body:
+    for stmt in _early_return_form(mr.body):
+        if isinstance(stmt, ast.Expr) and isinstance(stmt.value, ast.Constant):
+            continue                                            # docstring
         if isinstance(stmt, ast.Assign) and len(stmt.targets) == 1 and isinstance(stmt.targets[0], ast.Name) \
                 and isinstance(stmt.value, (ast.List, ast.Tuple)) \
                 and [getattr(e, "id", None) for e in stmt.value.elts] == ["r1", "r2"]:
@@ -168,13 +228,9 @@ def extract(src) -> dict:
     # --- _bool_to_exit_code: `return int(not value)`
     be = _func(cm, "_bool_to_exit_code")
     # evaluated, not pattern-matched (same evaluator as tables/cli.py): `int(not value)`, `0 if value else 1`, `1 - int(value)` …
-    from .cli import _eval_bool_expr
-    rets = [s for s in be.body if isinstance(s, ast.Return)]
-    if len(rets) != 1 or len(be.args.args) != 1:
-        raise ExtractError("_bool_to_exit_code: unexpected shape")
-    arg = be.args.args[0].arg
+    from .cli import eval_bool_to_exit_code
     try:
-        table = (int(_eval_bool_expr(rets[0].value, {arg: True})), int(_eval_bool_expr(rets[0].value, {arg: False})))
+        table = eval_bool_to_exit_code(be)
     except ValueError as e:
         raise ExtractError(f"_bool_to_exit_code: {e}") from None
     facts["exit_code_is_not"] = (table == (0, 1))
